@@ -27,9 +27,9 @@ HIST_ASSUMPTIONS = [
 
 
 def hist_worlds(prop, features):
-    worlds = ["WMix", "WMix", "WMix", "WOne"]
+    worlds = ["WMix", "WMix", "WMix", "WOne", "WMix", "WSolo", "WMix", "WOne"]
     if "wide" in features:
-        worlds = ["WMix", "WWide", "WMix", "WOne"]
+        worlds = ["WMix", "WWide", "WMix", "WOne", "WMix", "WSolo", "WWide", "WOne"]
     return worlds
 
 
@@ -282,8 +282,10 @@ HIST_RULES = {
 }
 
 
-def check_history(ctx, features=(), level="exploration", extra_step=None):
+def check_history(ctx, features=(), level="exploration", extra_step=None, extra_bins=None):
     bins = {"chk": build_harness("chk", features), "rel": build_harness("rel", features)}
+    if extra_bins:
+        bins.update(extra_bins())
     extra = [ctx.replay] if ctx.replay else []
     nfiles, _ = run_replays(ctx, bins, extra)
     if ctx.replay:
@@ -352,7 +354,10 @@ def check_history_fuzz(ctx):
         if c.prop == "C04":
             miri_sample(c, cov)
 
-    check_history(ctx, extra_step=extra if ctx.tier == "thorough" else None)
+    # C13: the clone's buffers (ASan: a clone refilled to capacity writes into what it allocated) and
+    # its pending events (events build) are part of "observationally identical"
+    extra_bins = (lambda: {"asan": build_harness_asan(), "chk-events": build_harness("chk", ("events",))}) if ctx.prop == "C13" else None
+    check_history(ctx, extra_step=extra if ctx.tier == "thorough" else None, extra_bins=extra_bins)
 
 
 HIST_RULES["C17"] = "histories (harness built with feature events) with both creation paths incl. refused create_within_capacity, all four destroy key kinds at both levels, ecs_iter_destroy!, destroys of stale handles, per-archetype and world-level clear_events at arbitrary points, clones; after every step the per-archetype and world-level event iterators are compared (as multisets) with the model's logs and size_hint is checked before every next(); non-trivial = an observation with >= 2 archetypes with non-empty and >= 1 with empty logs, plus a destroy through a dynamic key or ecs_iter_destroy!, plus a clear; distinct = hash of the decoded op list"
@@ -386,7 +391,7 @@ def check_c14(ctx):
     jobs = []
     for name, b in sorted(bins.items()):
         for s in range(shards):
-            world = "WOne" if s % 4 == 3 else "WMix"
+            world = "WOne" if s % 4 == 3 else "WSolo" if s % 4 == 2 else "WMix"
             seed = ctx.sub_seed("conv", name, s)
             base = os.path.join(work, "%s-%d" % (name, s))
             jobs.append(((name, s, world, seed), [b, "conv", "--world", world, "--cases", str(cases), "--seed", str(seed), "--out", base + ".json", "--fail-out", base + ".conv"]))
@@ -750,6 +755,17 @@ def run_engine_p(ctx, pg, prop, emit_args=None, features=(), case_file=None):
             st = r["status"]
             if st == "timeout":
                 raise Inconclusive("compiling / running %s timed out" % r["file"])
+            if st == "twin-rejected" and not r["id"].endswith("-twin"):
+                # a stand-alone must-compile program states the property itself (e.g. handles are
+                # Copy + Send + Sync regardless of the components): its rejection is the violation
+                dst_dir = os.path.join(found_dir(ctx.prop), r["id"])
+                os.makedirs(dst_dir, exist_ok=True)
+                shutil.copyfile(os.path.join(work, r["file"]), os.path.join(dst_dir, r["file"]))
+                job = [j for j in jobs if j["id"] == r["id"]][0]
+                with open(os.path.join(dst_dir, "job.json"), "w") as f:
+                    json.dump({"job": job, "result": r}, f, indent=1)
+                report_failure(ctx, "program-rejected", dst_dir, "[engine P] %s (%s) must compile but is rejected: %s" % (r["file"], r["note"], r.get("why", "")))
+                continue
             if st == "twin-rejected":
                 # the twin proves the negative is otherwise well formed; if it does not compile the
                 # pair says nothing (harness / tree incompatibility): inconclusive, not a violation
@@ -993,6 +1009,21 @@ def check_c19(ctx):
             jobs.append(((name, prop_run, world, s, seed), [b, "hist", "--prop", prop_run, "--world", world, "--cases", str(cases), "--len", str(maxlen), "--seed", str(seed), "--traces",
                                                             "--out", base + ".json", "--fail-out", base + ".ops", "--last-case", base + ".last"]))
     res = run_many(jobs, 3600 if ctx.tier == "quick" else 14400)
+    # the 2^24 capacity limit behaves the same in every configuration (1-10 s, ~700 MB each)
+    bjobs = [((name,), [b, "boundary", "--world", "WOne", "--start", str((1 << 24) - 3), "--fail-out", os.path.join(work, "b-%s.boundary" % name.replace(":", "_").replace("+", "_"))]) for name, (feats, b) in sorted(bins.items())]
+    boundary_ok = 0
+    for i in range(0, len(bjobs), 8):
+        for (name,), (rc, out) in sorted(run_many(bjobs[i:i + 8], 1800).items()):
+            if rc == 0:
+                boundary_ok += 1
+            elif rc in (None, -9, 137):
+                raise Inconclusive("capacity-limit scenario on %s was killed / timed out" % name)
+            else:
+                dst = os.path.join(found_dir("C19"), "capacity-limit-%s.boundary" % name.replace(":", "_").replace("+", "_"))
+                with open(dst, "w") as f:
+                    f.write("# property C19\n# capacity-limit scenario on build %s: status %s\nworld WOne\nboundary %d\n" % (name, rc, (1 << 24) - 3))
+                msg = [parse_line(l).get("msg", "") for l in out.splitlines() if l.startswith("FAIL ")]
+                report_failure(ctx, "capacity-limit", dst, "[%s] %s" % (name, (msg[:1] or ["the scenario process died with status %s" % rc])[0]))
     evaluations = 0
     hashes = set()
     labels = {}
@@ -1072,6 +1103,7 @@ def check_c19(ctx):
         "samples": samples or ["(no short sample)"],
         "exhaustive": False,
         "configurations": sorted(bins.keys()),
+        "capacity_limit_scenarios_passed": boundary_ok,
         "histories_compared_across_configurations": compared,
         "label_histogram": labels,
         "collateral": collateral,
@@ -1121,8 +1153,14 @@ def check_c12(ctx):
                             shutil.copyfile(os.path.join(work, "%s-%d.boundary" % (name, st)), dst)
                             report_failure(ctx, "capacity-limit", dst, "[%s, start capacity %d] %s" % (name, st, d.get("msg", "")))
                 elif rc != 0:
-                    # killed for memory etc.: never a violation
-                    raise Inconclusive("capacity-limit scenario died with status %s: %s" % (rc, out[-300:]))
+                    if rc in (-9, 137):
+                        # killed (memory): never a violation
+                        raise Inconclusive("capacity-limit scenario was killed (status %s)" % rc)
+                    # SIGILL / SIGSEGV / SIGABRT / a Rust panic outside catch_unwind: the scenario itself crashed
+                    dst = os.path.join(found_dir("C12"), "capacity-limit-crash-%s-%d.boundary" % (name, st))
+                    with open(dst, "w") as f:
+                        f.write("# property C12\n# vh-run boundary died with status %s on the %s build\nworld WOne\nboundary %d\n" % (rc, name, st))
+                    report_failure(ctx, "capacity-limit-crash", dst, "[%s, start capacity %d] the scenario process died with status %s: %s" % (name, st, rc, out[-300:]))
                 else:
                     boundary.append("%s: %s" % (name, [l for l in out.splitlines() if l.startswith("STATS")][0]))
     finally:
